@@ -58,7 +58,7 @@ def main() -> int:
     thorough = E.tier() == "thorough"
     selftest = "--selftest" in sys.argv
     replay = sys.argv[sys.argv.index("--replay") + 1] if "--replay" in sys.argv else None
-    lo, hi = (-3, 3) if thorough else (-2, 2)
+    lo, hi = (-2, 2)          # thorough goes one assignment deeper (every fourth assignment fanned out), not wider
     states = trans = 0
     info = {}
     cx_jobs, gr_jobs, ff_jobs = [], [], []
@@ -80,7 +80,7 @@ def main() -> int:
         vals = list(range(lo, hi + 1))
         for i, h in enumerate(paths):
             cx_jobs.append(("cxn:%d@%d" % (i, scales[i % 4]), h, scales[i % 4], vals))
-            if thorough:
+            if thorough and i % 3 == 0:
                 cx_jobs.append(("cxn:%d@%d" % (i, scales[(i + 1) % 4]), h, scales[(i + 1) % 4], vals))
         r2 = mc(work, "MC_Group", "a", "SPECIFICATION Spec\nCONSTANTS DEPTH = %d\n MAXDEPTH = 4\n NBOX = %d\nVIEW ViewSt\nINVARIANT EmitState\n"
                                       "PROPERTY Refines\nCHECK_DEADLOCK FALSE\n" % ((5, 3) if thorough else (4, 3)))
